@@ -7,6 +7,20 @@ Python relational evaluator over the generated rows (3VL by
 ORM result, as a bag of ``(entity identity | column value, ...)`` tuples, must
 equal both; ``select(count()).select_from(stmt.subquery())`` and
 ``select(stmt.exists())`` must agree with the number of rows returned.
+A disagreement between the two oracles is a harness error (exit 2), never a
+violation.  Failing terms are reduced greedily (drop ops / post / root
+modifier / criteria, re-root at the first join target) before they are
+reported as ``<kind>: <minimal term>``.
+
+Mutations caught (private copy, VF_REPO=/tmp/wt-query):
+  * orm/relationships.py Comparator._criterion_exists: many-to-many any() loses the secondary->target half of
+    the join condition (``j = pj``)                      -> cartesian-warning / wrong-rows: U2:Item ANY(0,tags,...)
+  * orm/context.py _adjust_for_extra_criteria: single-table-inheritance criterion not adapted to the aliased /
+    derived entity (``if adapter and False``)             -> cartesian-warning / wrong-rows: U4:Boss[union(..)] ...
+  * orm/relationships.py _create_joins: relationship.and_() criteria dropped when the relationship has a secondary
+                                                          -> wrong-rows: U2:Item[plain] J(0,tags,left,plain,p0,on)
+  * orm/loading.py instances(): single-entity rows de-duplicated although unique() was not requested
+                                                          -> wrong-rows / count-mismatch: U1:Grandchild J(0,child,inner,...) proj=ent/1
 """
 from __future__ import annotations
 
